@@ -25,6 +25,7 @@ func init() {
 	reg("H_C07_channels", H_C07_channels)
 	reg("H_C07_callbacks", H_C07_callbacks)
 	reg("H_C11_priors", H_C11_priors)
+	reg("H_C11_sequence", H_C11_sequence)
 }
 
 // the same harness under two bounds profiles: all receiver spellings / denoms / amounts with a plain payload, and the two
@@ -230,6 +231,10 @@ func H_C07_passthrough() {
 	}
 	verif.Assert(w.L.Bal(modAddr(core.DustCollectorName), nativeDenom).IsZero() || s.rcvKind == rcvDust, "dust-collector-untouched")
 }
+
+// H_C11_sequence: the same with the coins deposited AFTER an earlier transfer of the same block (whatever the first
+// packet of a block leaves in memory must not change how the next one treats a deposit made in between).
+func H_C11_sequence() { H_C11_priors() }
 
 // H_C11_priors: the same packet on the same state with and without coins already sitting on the orbiter account.
 func H_C11_priors() {
